@@ -19,8 +19,14 @@ for p in "$@"; do
     LDAR_REPO=$d/repo /venv/bin/python -m harness.extract.${t}_src > $d/$t.json 2>$d/$t.err
     unt=$(/venv/bin/python -c "import json,sys; d=json.load(open('$d/$t.json')); print(','.join(d['untranslated']) or '-')" 2>/dev/null || echo "translator-failed")
     case $t in emission) T=EmissionTie;; crew) T=CrewTie;; planner) T=PlannerTie;; followup) T=FollowUpTie;; esac
+    [ $t = emission ] && extra="LdarModel.Props.EmissionRecord" || extra=""
     fails=$(cd lean && lake build LdarModel.Props.$T 2>&1 | grep -E '^error: LdarModel' | sed "s/.*$T.lean:\([0-9]*\):.*/\1/" | sort -un | tr '\n' ' ')
-    msg="$msg | $t: untranslated=$unt failing=[$(names_of lean/LdarModel/Props/$T.lean $fails)]"
+    rec=""
+    if [ -n "$extra" ]; then
+      rf=$(cd lean && lake build $extra 2>&1 | grep -E '^error: LdarModel/Props/EmissionRecord' | sed "s/.*EmissionRecord.lean:\([0-9]*\):.*/\1/" | sort -un | tr '\n' ' ')
+      rec=" record=[$(names_of lean/LdarModel/Props/EmissionRecord.lean $rf)]"
+    fi
+    msg="$msg | $t: untranslated=$unt failing=[$(names_of lean/LdarModel/Props/$T.lean $fails)]$rec"
   done
   echo "$(echo $p | sed 's|.*/\(seeded\|seed3\)/||'): $msg"
   rm -rf $d
